@@ -9,6 +9,7 @@ Bridge for C16: facts regenerated from /repo (CueVerif.Gen.C16) versus the hand 
 -/
 import CueVerif.Gen.C16
 import CueVerif.Model.ModCache
+import CueVerif.Model.ModCachePaths
 namespace CueVerif.Bridge.C16
 open CueVerif
 
@@ -24,6 +25,13 @@ theorem fx_downloadModFile1 : Gen.C16.fx_downloadModFile1 = ModCache.goDownloadM
 theorem fx_readDiskCache : Gen.C16.fx_readDiskCache = ModCache.goReadDiskCache := by decide
 theorem fx_writeDiskCache : Gen.C16.fx_writeDiskCache = ModCache.goWriteDiskCache := by decide
 theorem fx_lockVersion : Gen.C16.fx_lockVersion = ModCache.goLockVersion := by decide
+
+/-- what Fetch removes under the version lock: entries named `filepath.Base(dir) + ".tmp-"…`
+(prefix test on the directory entries of the parent) and `dir` itself when it is partial -/
+theorem fx_Fetch_removes : Gen.C16.fx_Fetch_removes = ModCache.goFetchRemoves := by decide
+theorem fx_Fetch_defs : Gen.C16.fx_Fetch_defs = ModCache.goFetchDefs := by decide
+theorem cleanup_tmp_suffix : Gen.C16.cleanup_tmp_suffix = ModCache.tmpSuffixText := by decide
+theorem tmp_suffix_bytes : ModCache.tmpSuffixText.toList.map Char.toNat = ModCache.tmpSuffix := by decide
 
 /-- the model's cold Fetch passes the source's hook points in the source's order -/
 theorem hook_order_fetch_0 : ModCache.coldHooks 0 .fetch =
